@@ -91,6 +91,13 @@ def make_text(c):
                mon)
     t = (mon.last_commit_time[0] + mon.last_commit_time[1]) if mon.last_commit_time else 1.0
     end = round(max(c.get("events", 150) * max(t, 1e-9) / 150.0, 1e-6), 9)
+    # keep the end of the run off the periodic events' times: an exact tie between two candidate events is resolved by
+    # heap layout (known finding), so "the same sequence" is not defined for it
+    periods = [float(v) for opt in ("sampling_interval", "chain_time") for _, v in configs.sections_with(text, opt)]
+    for _ in range(50):
+        if all(abs(end / p_ - round(end / p_)) > 1e-6 for p_ in periods if p_ > 0.0):
+            break
+        end = round(end * 1.00137, 9)
     text = configs.set_option(text, "FinalTimeEndOfRunEventHandler", "end_of_run_time", repr(end))
     if c.get("noop_period"):
         # a periodic handler with an EMPTY out-state and no out-state arguments (the shipped dumping handler; the worker
@@ -202,8 +209,16 @@ def body(rec, c):
         if S["commits"] != M["commits"]:
             n = min(len(S["commits"]), len(M["commits"]))
             i = next((j for j in range(n) if S["commits"][j] != M["commits"][j]), n)
-            rec.fail("commit-sequence-differs", "commit %d differs: single %r, multi %r (lengths %d / %d, cores %d)" % (
-                i, S["commits"][i:i + 1], M["commits"][i:i + 1], len(S["commits"]), len(M["commits"]), c["cores"]), c)
+            a, b = S["commits"][i:i + 1], M["commits"][i:i + 1]
+            # two different handlers committed at the bit-identical time, from the same global state: the two mediators
+            # resolved a tie between simultaneous candidates differently (recorded finding, see known_findings.json)
+            tie = bool(a and b and a[0][2:4] == b[0][2:4] and a[0][0] != b[0][0] and (
+                i == 0 or S["commits"][i - 1] == M["commits"][i - 1]))
+            rec.fail("commit-sequence-differs" + ("/tie-order" if tie else ""),
+                     "commit %d differs: single %r, multi %r (lengths %d / %d, cores %d)" % (
+                         i, a, b, len(S["commits"]), len(M["commits"]), c["cores"]), c)
+            if tie:
+                return
         if S["writes"] != M["writes"]:
             rec.fail("samples-differ", "written samples differ (%d vs %d)" % (len(S["writes"]), len(M["writes"])), c)
         if M["status"] != "end_of_run":
